@@ -244,7 +244,7 @@ reg(Prop(
 def plan_c11(tier, seed):
     jobs = []
     r = 50 if tier == "quick" else 2000
-    for cfg, n, rr in ((Config("dbg"), 4, r), (Config("rel"), 4, r), (Config("miri-dbg"), 8, 1), (Config("miri-rel"), 8, 1), (Config("asan"), 2, r)):
+    for cfg, n, rr in ((Config("dbg"), 4, r), (Config("rel"), 4, r), (Config("miri-dbg"), 12, 1), (Config("miri-rel"), 12, 1), (Config("asan"), 2, r)):
         if tier == "thorough" and cfg.tool.startswith("miri"):
             n, rr = 16, 8
         jobs += shards(cfg, "borrow", "small", n, rr, seed, nshards_arg=True, timeout=3000)
@@ -256,7 +256,7 @@ reg(Prop(
     "C11", "exploration", plan_c11,
     accept=["C11"],
     floors={"judged.conflict": 2000, "judged.compatible": 30000, "conflict.panicked_as_required": 2000, "boom.unwound_through_borrow": 100, "nests": 20000},
-    rule="exhaustive depth-2 matrix: outer x inner over 65 accesses {ecs_find_borrow!, Borrow::component(_mut) (archetype and world level)} x {shared, mutable} x {2 archetypes} x {2 columns} x {entity 0, entity 1, stale handle}, {ecs_iter_borrow!, borrow_slice(_mut)} x {shared, mutable} x archetypes x columns, and world.clone(), in three world states (both populated, either archetype empty) = 12675 pairs, plus injected panics unwinding through one and two held borrows and random depth 3-5 nestings. A shadow of RefCell's reader/writer rule per (archetype, column) decides for every inner access: conflict => must panic with a borrow error, compatible => must be granted and see the model's values; after each nest every column must accept borrow_slice_mut again. Miri's aliasing model is the independent second opinion on the same matrix. distinct_nontrivial = depth-2 pairs enumerated (exact: processes enumerate disjoint cases; repeated per tool)",
+    rule="exhaustive depth-2 matrix: outer x inner over 79 accesses {ecs_find_borrow!, Borrow::component(_mut) (archetype and world level)} x {shared, mutable} x {2 archetypes} x {2 columns} x {entity 0, entity 1, stale handle}, {ecs_iter_borrow!, borrow_slice(_mut)} x {shared, mutable} x archetypes x columns, world.clone(), and - with parameters the macros have to resolve themselves - ecs_find_borrow!/ecs_iter_borrow! over &(mut) OneOf<Pa, Pb> (a different column in each archetype), ecs_find_borrow! with an EntityAny key and |&EntityAny, &(mut) Ha| (query matches both archetypes, the key picks one) and ecs_iter_borrow! over |&EntityAny, &(mut) Ha| (holds one archetype's column at a time), in three world states (both populated, either archetype empty) = 18723 pairs, plus injected panics unwinding through one and two held borrows and random depth 3-5 nestings. A shadow of RefCell's reader/writer rule per (archetype, column) decides for every inner access: conflict => must panic with a borrow error, compatible => must be granted and see the model's values; after each nest every column must accept borrow_slice_mut again. Miri's aliasing model is the independent second opinion on the same matrix. distinct_nontrivial = depth-2 pairs enumerated (exact: processes enumerate disjoint cases; repeated per tool)",
     nontrivial_key="depth2_pairs", assumptions=COMMON_ASSUME, design_ref="DESIGN.md section 4, C11", distinct_merge="sum"))
 
 
